@@ -100,7 +100,11 @@ def distEps : α := 1e-12
 def distance (x y : List α) : α :=
   sqrt (max (dot x x - 2.0 * dot x y + dot y y + distEps) 0)
 
-/-- `util.distance_grad` for one pair: `(dist, (y − x)/(dist + eps))`. -/
+/-- `util.distance_grad` for one pair: `(dist, (y − x)/(dist + eps))`.  The implementation takes `dist` from the differences,
+    `sqrt(Σ (yᵢ − xᵢ)² + 1e-12)` (numerically stable; fix `distance_grad takes the distance from the coordinate differences`),
+    the model from the expanded form of `distance`: the same real number for points of equal width
+    (`KernelLemmas.distance_eq`, `dot_expand`); at `Float` the two differ by the cancellation error that the checks' interval
+    oracle budgets. -/
 def distanceGrad (x y : List α) : α × List α :=
   let dist := distance x y
   (dist, List.zipWith (fun yi xi => (yi - xi) / (dist + distEps)) y x)
